@@ -641,17 +641,28 @@ func checkRunnerCorrelationIDs(r *Run) {
 			sites++
 			id := op[i:]
 			kind := op[:i]
-			// a send and its matching receive legitimately share an id
-			k := id
-			if strings.Contains(kind, "SendUnicast") || strings.Contains(kind, "UnicastSend") {
-				k = "send" + id
-			} else if strings.Contains(kind, "ReceiveUnicast") || strings.Contains(kind, "UnicastReceive") {
-				k = "recv" + id
+			// the exchange layer appends "BROADCAST:" / "UNICAST:" to the id, so a broadcast and a unicast
+			// exchange may share it; a send and its matching receive legitimately share one too
+			classes := []string{}
+			switch {
+			case strings.Contains(kind, "BroadcastExchange"):
+				classes = []string{"B"}
+			case strings.Contains(kind, "UnicastExchange"):
+				classes = []string{"Us", "Ur"}
+			case strings.Contains(kind, "SendUnicast") || strings.Contains(kind, "UnicastSend"):
+				classes = []string{"Us"}
+			case strings.Contains(kind, "ReceiveUnicast") || strings.Contains(kind, "UnicastReceive"):
+				classes = []string{"Ur"}
+			default: // exchange.Exchange: both
+				classes = []string{"B", "Us", "Ur"}
 			}
-			if seen[k] {
-				bad = "correlation id " + id + " is used for two exchanges of the same runner"
+			for _, c := range classes {
+				k := c + id
+				if seen[k] {
+					bad = "correlation id " + id + " is used for two exchanges of the same kind in one runner"
+				}
+				seen[k] = true
 			}
-			seen[k] = true
 			if strings.Contains(id, "/") {
 				bad = "correlation id " + id + " contains the namespace separator"
 			}
